@@ -118,6 +118,7 @@ func runC13(c *eng.Ctx) {
 	runC13Sequential(c, next)
 	runC13CloseVsClose(c, next)
 	runC13RootScope(c, next)
+	runC13Waiters(c, next)
 	// (b) overlaps
 	reps := c.Pick(1, 6)
 	for _, sc := range overlapScenarios() {
